@@ -24,6 +24,12 @@ HOSTILE_OPS = ["DIV", "SDIV", "MOD", "SMOD", "EXP", "SHL", "SHR", "SAR", "SIGNEX
 @st.composite
 def hostile_block(draw):
     kind = draw(st.integers(0, 9))
+    if kind == 9 and draw(st.integers(0, 3)) == 0:
+        # a term DAG with heavy sharing: x, 2x, 4x, ... (every level reuses the previous one twice)
+        n = draw(st.integers(12, 19))
+        op = draw(st.sampled_from(["ADD", "MUL", "AND", "SUB", "XOR"]))
+        return [(draw(st.sampled_from(["CALLVALUE", "CALLER", "DUP1"])), None)] + [("DUP1", None), (op, None)] * n + \
+            draw(st.sampled_from([[], [("PUSH", 1), ("SSTORE", None)], [("POP", None)]]))
     if kind <= 3:
         b = draw(gen.block(max_len=14, profile=gen.ARITH_PROFILE))
         for _ in range(draw(st.integers(1, 3))):
@@ -113,10 +119,23 @@ def innermost_repo_frame(exc):
     return typ
 
 
+def where_stuck(frames):
+    """root-cause key of a budget hit: the function the tool recurses in (>= 3 times on the stack), else the innermost
+    frame inside the repository"""
+    fr = [f for f in frames if str(f[0]).startswith(hermetic.REPO)]
+    if not fr:
+        return "outside-repo"
+    names = [f[2] for f in fr]
+    for n in reversed(names):
+        if names.count(n) >= 3:
+            return "recursion:" + n
+    return "in:" + names[-1]
+
+
 def classify_run(r):
     """None if the run completed with an output, else (kind, culprit, detail)"""
-    if r.kind == "timeout" and r.info and "soft" in str(r.info):
-        return ("killed-by-limit", "cpu-budget", "soft CPU budget exceeded in-process")
+    if r.kind == "timeout" and isinstance(r.info, tuple):
+        return ("killed-by-limit", where_stuck(r.info[1]), "%s; stack: %s" % (r.info[0], " > ".join(f[2] for f in r.info[1][-6:])))
     if r.kind == "killed":
         return ("killed-by-limit", r.info, "child killed: %s (cpu %.1fs)" % (r.info, r.cpu_s))
     if r.kind == "timeout":
